@@ -165,6 +165,15 @@ class Builder:
         if r == "continue":
             return pt.Continue()
         k = r[0]
+        if k == "shared":
+            # ("shared", key, expr): the SAME Python expression object at every occurrence of the key (PyTeal trees are DAGs when the
+            # user reuses an object); its meaning is the meaning of the tree with the sub-expression repeated
+            _, key, sub = r
+            if not hasattr(self, "_shared"):
+                self._shared = {}
+            if key not in self._shared:
+                self._shared[key] = self.build(sub)
+            return self._shared[key]
         if k == "op":
             _, name, imms, ty, args = r
             a = [self.build(x) for x in args]
@@ -298,6 +307,8 @@ class Builder:
         if r == "continue":
             return "continue"
         k = r[0]
+        if k == "shared":
+            return self.wire(r[2])
         if k == "op":
             _, name, imms, ty, args = r
             if name == "//":
